@@ -163,8 +163,20 @@ LabSkipFlag6(proto, n, cli) ==
 C17Lab == { LabSkip6(p, 2, c) : p \in {"icmp", "udp"}, c \in BOOLEAN } \cup { LabSkipFlag6(p, 2, c) : p \in {"icmp", "udp"}, c \in BOOLEAN }
           \cup { [LabSkip(p, 2, c) EXCEPT !.id = "C17/lab/" \o p \o "/n2" \o (IF c THEN "/cli" ELSE "")] : p \in {"icmp", "udp"}, c \in BOOLEAN }
 
+\* C15 through the real HTTP server binary (server.Start: its own listener and http.Server): a request whose queries all succeed is
+\* answered with exactly the requested runs and samples - also when pacing the end-to-end probes (1 s apart with the default
+\* timeout and TTL range) makes the request take longer than a minute
+LabSrv(proto, q, e) ==
+    [id |-> "C15/srv/" \o proto \o "/q" \o ToString(q) \o "/e" \o ToString(e), label |-> "server_binary/" \o proto \o (IF e > 55 THEN "/longer_than_a_minute" ELSE "/short"),
+     kind |-> "labsrv", n |-> 1, port |-> "closed", silent |-> <<>>, cli |-> TRUE, v6 |-> FALSE, skip |-> FALSE, reject |-> 0, noise |-> "",
+     req |-> [hostname |-> DestAddr(1), port |-> 33434, protocol |-> proto, tcp_method |-> "", min_ttl |-> 1, max_ttl |-> 30,
+              timeout_ms |-> 3000, queries |-> q, e2e |-> e, want_v6 |-> FALSE, skip_private |-> FALSE],
+     expect |-> [ok |-> TRUE, notsupported |-> FALSE,
+                 hops |-> [k \in 1..2 |-> IF k = 2 THEN [ttl |-> k, addr |-> DestAddr(1), dest |-> TRUE] ELSE [ttl |-> k, addr |-> RouterAddr(k), dest |-> FALSE]]]]
+C15Lab == { LabSrv("udp", 2, 63), LabSrv("icmp", 1, 2) }
+
 LabGen == IF "VT_GEN" \in DOMAIN IOEnv THEN IOEnv.VT_GEN ELSE "C13"
-LabCases == IF LabGen = "C08" THEN C08Lab ELSE IF LabGen = "C17" THEN C17Lab ELSE All \cup Extra \cup CliAll \cup MoreC13
+LabCases == IF LabGen = "C08" THEN C08Lab ELSE IF LabGen = "C15" THEN C15Lab ELSE IF LabGen = "C17" THEN C17Lab ELSE All \cup Extra \cup CliAll \cup MoreC13
 ASSUME ndJsonSerialize(IOEnv.VT_OUT, SetToSeq(LabCases)) /\ PrintT(<<"GEN", LabGen, Cardinality(LabCases), Cardinality(LabCases)>>)
 VARIABLE x
 Init == x = 0
